@@ -376,9 +376,11 @@ def makePretend (p : Packet) (seq : Nat) (nchan : Int) : Res Packet :=
   | .i64 xs => (pretendVals xs nchan).bind fun ys => .ok { q with data := .i64 ys }
   | _ => .ok q
 
+/-- header length without data: fixed part + channel offset, + 16 with a timestamp -/
+def baseLen (p : Packet) : Nat := if p.ts.isSome then 40 else 24
+
 def clearData (p : Packet) : Packet :=
-  let hl := if p.ts.isSome then 40 else 24
-  { p with hl := hl, pl := 0, plen := hl, format := none, shape := none, data := .none }
+  { p with hl := baseLen p, pl := 0, plen := baseLen p, format := none, shape := none, data := .none }
 
 /-! ### Constructors -/
 
@@ -413,7 +415,7 @@ def fmtOf (d : Data) : Fmt :=
 def newData (p : Packet) (d : Data) (dims : List Int) : Except NDErr Packet :=
   let ndim := dims.length
   if 48 + 8 * (1 + ndim / 4) > 255 then .error .tooManyDims else
-  let hl0 := if p.ts.isSome then 40 else 24
+  let hl0 := baseLen p
   let f := fmtOf d
   let nbytes := f.wordlen * d.len                              -- an `int`
   let hl := (hl0 + 8 + (8 * ((1 + ndim / 4) % 256)) % 256) % 256   -- uint8 arithmetic
